@@ -9,16 +9,19 @@ from ..core import AnalysisError, Mutant, Rule, Twin
 ID = "C17"
 INTEG = "chempy/kinetics/integrated.py"
 UTIL = "chempy/_util.py"
-ENGINES = ["E0 core", "E2 units-of-measure interpreter"]
+ENGINES = ["E0 core", "E2 units-of-measure interpreter", "E4b rational normal form"]
 TECHNIQUE = ("per-backend abstract evaluation of attribute reads on the object returned by get_backend (hasattr/getattr/conditional expressions resolved against dir(math), "
              "dir(numpy), dir(sympy)); units-of-measure abstract interpretation of every closed form with the documented dimensions of its parameters (ast)")
 CLAIM = ("Decides only the clause 'can be evaluated with each backend they advertise': every attribute read from the backend object on the path "
          "taken for numpy, math and sympy exists in that library (an eagerly evaluated getattr default counts as a read), every function "
          "with a backend parameter obtains it through get_backend and uses no other math namespace.  Additionally a necessary condition of the "
          "rate-equation clause: with the documented dimensions of its parameters (time, concentration, first/second-order rate constant, feed ratio) "
-         "every closed form is dimensionally homogeneous, feeds only dimensionless values to exp/tanh/atanh, and returns concentrations.")
+         "every closed form is dimensionally homogeneous, feeds only dimensionless values to exp/tanh/atanh, and returns concentrations; and each "
+         "closed form is algebraically identical (exact rational normal form, temporaries inlined) to the reference solution recorded from the pinned "
+         "tree, i.e. the expressions the upstream notebooks derived for the documented mechanisms.")
 DOES_NOT_DECIDE = ("that each expression satisfies its rate equation and initial value beyond dimensional consistency (needs symbolic differentiation / simplification: "
-                   "solver family) -- a sign flip or a changed pure number inside a homogeneous sum is not seen; "
+                   "solver family): C17-R4 only establishes identity with the recorded reference expressions, not that those solve the rate equations; rewrites that need an "
+                   "identity of exp/tanh/sqrt (exp(a+b) = exp(a)*exp(b) ...) are reported as changes; "
                    "agreement of numeric values between backends")
 ASSUMPTIONS = ["dir() of the installed math, numpy and sympy is the API oracle"]
 
@@ -215,9 +218,85 @@ def r3_dimensions(ctx):
         ctx.check(not bad, a, "returns-concentration", "every returned expression must be a concentration; found %s" % [dim_str(o.dim) for o in outs], node=fn)
 
 
+# Reference solutions (as derived in the upstream notebooks _integrated.ipynb, _kinetics_cstr.ipynb, _derive_analytic_cstr_bireac.ipynb and recorded from the
+# pinned tree).  Compared as exact rational normal forms with all temporaries inlined: any algebraically identical spelling is accepted.
+REFERENCE = {
+    "dimerization_irrev": "return 1 / (1 / initial_C + 2 * kf * (t - t0))",
+    "pseudo_irrev": "return prod + minor * (1 - exp(-major * kf * t))",
+    "pseudo_rev": "return (-kb * prod + kf * major * minor + (kb * prod - kf * major * minor) * exp(-t * (kb + kf * major))) / (kb + kf * major)",
+    "binary_irrev": "return prod + major * (1 - exp(-kf * (major - minor) * t)) / (major / minor - exp(-kf * t * (major - minor)))",
+    "binary_rev": """
+X, Y, Z = prod, major, minor
+x0 = Y * kf
+x1 = Z * kf
+x2 = 2 * X * kf
+x3 = -kb - x0 - x1
+x4 = -x2 + x3
+x5 = sqrt(-4 * kf * (X ** 2 * kf + X * x0 + X * x1 + Z * x0) + x4 ** 2)
+x6 = kb + x0 + x1 + x5
+x7 = (x3 + x5) * exp(-t * x5)
+x8 = x3 - x5
+return (x4 * x8 + x5 * x8 + x7 * (x2 + x6)) / (2 * kf * (x6 + x7))
+""",
+    "unary_irrev_cstr": """
+x0 = fr * fv
+x1 = fv + k
+x2 = 1 / x1
+x3 = fv * r + k * r - x0
+x4 = fr * k
+x5 = exp(-fv * t)
+return (x0 * x2 + x2 * x3 * exp(-t * x1), -x2 * x3 * x5 * (-1 + exp(-k * t)) + x2 * x5 * (-fp * fv - fp * k + fv * p + k * p - x4) + x2 * (fp * x1 + x4))
+""",
+    "binary_irrev_cstr": """
+x0 = 1 / k
+x1 = sqrt(fv)
+x2 = 8 * k
+x3 = fr * x2
+x4 = sqrt(fv + x3)
+x5 = x1 * x4
+x6 = x1 * x4 / 2
+x7 = atanh((-(fv ** (3 / 2)) * x4 - 4 * k * r * x5) / (fv ** 2 + fv * x3))
+x8 = fv * t
+x9 = fp * x2
+x10 = 4 * k * n
+x11 = fr * x10
+x12 = exp(x8)
+x13 = n * x12
+return (x0 * (-fv + x5 * tanh(t * x6 - x7)) / 4, x0 * (fv * x13 + 8 * k * p + r * x10 - x1 * x13 * x4 * tanh(x6 * (t - 2 * x7 / (x1 * x4))) + x11 * x12 - x11 + x12 * x9 - x9) * exp(-x8) / 8)
+""",
+}
+
+
+def r4_reference_solutions(ctx):
+    """each closed form is algebraically identical to its recorded reference solution"""
+    import textwrap
+    from ..ratform import rat_of, r_equal, single_assignment_env, Undecided
+    for q, ref_src in REFERENCE.items():
+        fn = ctx.func(INTEG, q)
+        a = INTEG + ":" + q
+        ref_fn = ast.parse("def _ref():\n" + textwrap.indent(ref_src.strip("\n"), "    ")).body[0]
+        rets = [n for n in walk_shallow(fn) if isinstance(n, ast.Return)]
+        if len(rets) != 1:
+            raise AnalysisError("%s: expected exactly one return" % q)
+        got, want = rets[0].value, ref_fn.body[-1].value
+        gp = list(got.elts) if isinstance(got, ast.Tuple) else [got]
+        wp = list(want.elts) if isinstance(want, ast.Tuple) else [want]
+        if len(gp) != len(wp):
+            ctx.violation(a, "arity", "%s must return %d expression(s); returns %d" % (q, len(wp), len(gp)), node=rets[0])
+            continue
+        env_g, env_w = single_assignment_env(fn), single_assignment_env(ref_fn)
+        for i, (g, w) in enumerate(zip(gp, wp)):
+            try:
+                same_ = r_equal(rat_of(g, env_g), rat_of(w, env_w))
+            except Undecided as e:
+                raise AnalysisError("%s[%d]: normal form not computable: %s" % (q, i, e))
+            ctx.check(same_, a, "identical-to-reference[%d]" % i, "result %d of %s is not algebraically identical to the reference solution `%s`" % (i, q, U(w)[:90]), node=g)
+
+
 RULES = [
     Rule("C17-R1", r1_api, 18, "backend API availability for numpy, math, sympy"),
     Rule("C17-R2", r2_via_get_backend, 13, "backend obtained via get_backend; no other math namespace"),
+    Rule("C17-R4", r4_reference_solutions, 9, "closed forms algebraically identical to the recorded reference solutions (E4b rational normal form)"),
     Rule("C17-R3", r3_dimensions, 7, "closed forms are dimensionally homogeneous and return concentrations (E2, documented parameter dimensions)"),
 ]
 
@@ -240,5 +319,15 @@ MUTANTS += [
 ]
 TWINS += [
     Twin("pseudo-irrev-factored", [(INTEG, "return prod + minor * (1 - be.exp(-major * kf * t))", "return prod + minor - minor * be.exp(-(kf * major) * t)")]),
+]
+MUTANTS += [
+    Mutant("binary-rev-discriminant-term", [(INTEG, "x5 = be.sqrt(-4 * kf * (X ** 2 * kf + X * x0 + X * x1 + Z * x0) + x4 ** 2)", "x5 = be.sqrt(-4 * kf * (X * x2 + X * x0 + X * x1 + Z * x0) + x4 ** 2)")], "C17-R4", "binary_rev"),
+    Mutant("pseudo-irrev-plateau", [(INTEG, "return prod + minor * (1 - be.exp(-major * kf * t))", "return minor - (minor - prod) * be.exp(-major * kf * t)")], "C17-R4", "pseudo_irrev"),
+    Mutant("cstr-product-sign", [(INTEG, "+ x2 * x5 * (-fp * fv - fp * k + fv * p + k * p - x4)", "+ x2 * x5 * (x1 * (fp - p) - x4)")], "C17-R4", "unary_irrev_cstr"),
+]
+TWINS += [
+    Twin("cstr-product-factored", [(INTEG, "+ x2 * x5 * (-fp * fv - fp * k + fv * p + k * p - x4)", "+ x2 * x5 * (-x1 * (fp - p) - x4)")]),
+    Twin("pseudo-rev-temporaries", [(INTEG, "    return (\n        -kb * prod\n        + kf * major * minor\n        + (kb * prod - kf * major * minor) * be.exp(-t * (kb + kf * major))\n    ) / (kb + kf * major)", "    kobs = kb + kf * major\n    eq = kf * major * minor - kb * prod\n    return (eq - eq * be.exp(-kobs * t)) / kobs")]),
+    Twin("dimerization-rewritten", [(INTEG, "return 1 / (1 / initial_C + 2 * kf * (t - t0))", "return initial_C / (1 + 2 * kf * initial_C * (t - t0))")]),
 ]
 
